@@ -587,6 +587,9 @@ fn out_j(o: &Out) -> J {
         Out::YXmlText(v) => shared("YXmlText", v.as_ref()),
         Out::YDoc(d) => J::obj(vec![("YDoc", J::str(&d.guid()))]),
         Out::UndefinedRef(_) => J::obj(vec![("UndefinedRef", J::Bool(true))]),
+        // `Out::YWeakLink` exists only with the feature "weak" of yrs (no script writes one)
+        #[allow(unreachable_patterns)]
+        _ => J::obj(vec![("YWeakLink", J::Bool(true))]),
     }
 }
 
@@ -1665,9 +1668,12 @@ pub struct MInfo {
     stats: Stats,
 }
 
-fn encoded<T: ReadTxn>(txn: &T) -> Vec<u8> {
-    at("ReadTxn::encode_state_as_update_v1");
-    txn.encode_state_as_update_v1(&StateVector::default())
+/// What tells whether a step had an effect: every effective operation creates a block (the state
+/// vector grows) or deletes one (the delete set grows). (The encoded state would do as well, but a
+/// sub-document writes its options in the hash order of a map built for the occasion.)
+fn encoded<T: ReadTxn>(txn: &T) -> yrs::Snapshot {
+    at("ReadTxn::snapshot");
+    txn.snapshot()
 }
 
 /// The keys probed through the point reads: every concrete key of the first three key names and of
@@ -2077,31 +2083,33 @@ fn stages(target: &str, universe: u32) -> Vec<Stage> {
         max_keys: if fan > 1 { 2 } else { 3 },
         per_txn: 3,
     };
+    // Depths by measurement (dev profile, 8 jobs): universe 6 is about 400 000 cases; one more
+    // operation multiplies a configuration by 7 (core) to 25 (medium / wide).
     let mut out = Vec::new();
     if target != "xml_attrs" {
         use HostKind::*;
-        out.push(st("root_1_replica_gc", Root, 1, true, false, 1, lim(d(1), d(3), d(3), d(4))));
-        out.push(st("root_1_replica_keys_x8_gc", Root, 1, true, false, 8, core_only(d(3))));
-        out.push(st("root_1_replica_nogc", Root, 1, false, false, 1, lim(d(2), d(3), d(3), d(4))));
-        out.push(st("root_1_replica_undo", Root, 1, true, true, 1, lim(d(2), d(3), d(4), d(4))));
-        out.push(st("root_2_replicas_gc", Root, 2, true, false, 1, lim(d(2), d(4), d(4), d(4))));
-        out.push(st("root_2_replicas_nogc", Root, 2, false, false, 1, lim(d(3), d(4), d(4), d(5))));
-        out.push(st("root_1_replica_keys_x8_nogc", Root, 1, false, false, 8, core_only(d(3))));
-        out.push(st("root_1_replica_keys_x8_undo", Root, 1, true, true, 8, core_only(d(3))));
-        out.push(st("map_in_map_1_replica_gc", InMap, 1, true, false, 1, lim(d(2), d(3), d(3), d(4))));
-        out.push(st("map_in_map_2_replicas_gc", InMap, 2, true, false, 1, lim(d(3), d(4), d(4), d(4))));
-        out.push(st("map_in_array_1_replica_gc", InArray, 1, true, false, 1, lim(d(2), d(3), d(3), d(4))));
-        out.push(st("map_in_array_2_replicas_nogc", InArray, 2, false, false, 1, lim(d(3), d(4), d(4), d(4))));
+        out.push(st("root_1_replica_gc", Root, 1, true, false, 1, lim(d(0), d(2), d(3), d(4))));
+        out.push(st("root_1_replica_keys_x8_gc", Root, 1, true, false, 8, core_only(d(2))));
+        out.push(st("root_1_replica_nogc", Root, 1, false, false, 1, lim(d(1), d(3), d(3), d(4))));
+        out.push(st("root_1_replica_undo", Root, 1, true, true, 1, lim(d(1), d(2), d(3), d(4))));
+        out.push(st("root_2_replicas_gc", Root, 2, true, false, 1, lim(d(1), d(3), d(3), d(4))));
+        out.push(st("root_2_replicas_nogc", Root, 2, false, false, 1, lim(d(2), d(3), d(3), d(4))));
+        out.push(st("root_1_replica_keys_x8_nogc", Root, 1, false, false, 8, core_only(d(2))));
+        out.push(st("root_1_replica_keys_x8_undo", Root, 1, true, true, 8, core_only(d(2))));
+        out.push(st("map_in_map_1_replica_gc", InMap, 1, true, false, 1, lim(d(1), d(3), d(3), d(4))));
+        out.push(st("map_in_map_2_replicas_gc", InMap, 2, true, false, 1, lim(d(2), d(3), d(3), d(4))));
+        out.push(st("map_in_array_1_replica_gc", InArray, 1, true, false, 1, lim(d(1), d(3), d(3), d(4))));
+        out.push(st("map_in_array_2_replicas_nogc", InArray, 2, false, false, 1, lim(d(2), d(3), d(3), d(4))));
         out.push(st("map_in_map_1_replica_keys_x8_gc", InMap, 1, true, false, 8, core_only(d(3))));
     }
     if target != "map_paths" {
         use HostKind::*;
-        out.push(st("xml_element_1_replica_gc", XmlElem, 1, true, false, 1, lim(d(2), d(3), d(3), d(4))));
-        out.push(st("xml_element_1_replica_keys_x8_gc", XmlElem, 1, true, false, 8, core_only(d(3))));
-        out.push(st("xml_element_1_replica_nogc", XmlElem, 1, false, false, 1, lim(d(3), d(3), d(4), d(4))));
-        out.push(st("xml_element_1_replica_undo", XmlElem, 1, true, true, 1, lim(d(3), d(3), d(4), d(4))));
-        out.push(st("xml_element_2_replicas_gc", XmlElem, 2, true, false, 1, lim(d(3), d(4), d(4), d(4))));
-        out.push(st("xml_text_1_replica_gc", XmlText, 1, true, false, 1, lim(d(3), d(4), d(4), d(4))));
+        out.push(st("xml_element_1_replica_gc", XmlElem, 1, true, false, 1, lim(d(0), d(2), d(2), d(4))));
+        out.push(st("xml_element_1_replica_keys_x8_gc", XmlElem, 1, true, false, 8, core_only(d(2))));
+        out.push(st("xml_element_1_replica_nogc", XmlElem, 1, false, false, 1, lim(d(1), d(3), d(3), d(4))));
+        out.push(st("xml_element_1_replica_undo", XmlElem, 1, true, true, 1, lim(d(1), d(2), d(2), d(4))));
+        out.push(st("xml_element_2_replicas_gc", XmlElem, 2, true, false, 1, lim(d(1), d(3), d(3), d(4))));
+        out.push(st("xml_text_1_replica_gc", XmlText, 1, true, false, 1, lim(d(1), d(2), d(3), d(4))));
     }
     out
 }
